@@ -29,6 +29,23 @@ pub fn bucket_order(n: usize) {
     vcover!(p != 0, "a non-identity permutation");
 }
 
+/// soundness of the bucket hash: two buckets of 2 digests each get the same hash only if they hold the
+/// same (key, value) digest pairs
+pub fn bucket_sound() {
+    let d = [any_digest(), any_digest()];
+    let e = [any_digest(), any_digest()];
+    vs::assume(d[0].key_hash != d[1].key_hash && e[0].key_hash != e[1].key_hash);
+    crate::vs::streams_reset();
+    let x = MerkleNode::from_digests(&d); // hasher #0
+    let y = MerkleNode::from_digests(&e); // hasher #1
+    let same_hash = if vs::NATIVE { x.hash == y.hash } else { vs::streams_equal(0, 1) };
+    let pair = |p: &KeyDigest, q: &KeyDigest| p.key_hash == q.key_hash && p.value_hash == q.value_hash;
+    let same_content = (pair(&d[0], &e[0]) && pair(&d[1], &e[1])) || (pair(&d[0], &e[1]) && pair(&d[1], &e[0]));
+    vcheck!(!same_hash || same_content, "digest:buckets with different key/value pairs share a hash (false 'in sync')");
+    vcheck!(!same_content || same_hash, "digest:buckets with the same key/value pairs have different hashes");
+    vcover!(same_hash, "equal bucket hashes reachable");
+}
+
 fn lww_value(b: u8, tomb: bool, ts: LamportClock, exp: Option<u64>) -> ReplicatedValue {
     ReplicatedValue {
         crdt: CrdtValue::Lww(LwwRegister { value: if tomb { None } else { Some(sds1(b)) }, timestamp: ts, tombstone: tomb }),
